@@ -2214,3 +2214,97 @@ def chain_conversion(chk, src, n=4):
     chk.ob("chain-conversion", "from_mps on a symbolic chain (centres 0, 1, last)", not problems, fi.where, problems[:2] or "as expected", "as expected", line=fi.node.lineno,
            detail="chain -> tree conversion: " + (problems[0] if problems else "") + " - a node label that is not the quantum number of its subtree makes every symmetry-blocked decomposition "
                   "(compress, canonicalise, entropies) discard wrong blocks in non-zero sectors")
+
+
+# ---------------------------------------------------------------------------------------------- the local propagation steps of the tree sweeps
+def local_step_rule(chk, src, rule):
+    """abstract runs of evolve_0site / evolve_1site / evolve_2site with recorders for the effective-Hamiltonian builders and the Krylov exponential: whatever the shape of the
+    local tensor (a 1 x 1 bond matrix included) the step returns exp(coeff * tau * H_eff) applied to the local tensor: H_eff of the right kind for the node, the vector = the
+    flattened local tensor, the matrix-vector product = H_eff on the argument brought back to the tensor's shape and flattened again"""
+    import sympy as sp
+    from ..syminterp import SymInterp, Sym
+    c, t = sp.Symbol("coeff"), sp.Symbol("tau")
+
+    class Tens(Sym):
+        def __init__(self, name, shape):
+            super().__init__(name)
+            self.shape = tuple(shape)
+            self.ndim = len(self.shape)
+            n = 1
+            for d in self.shape:
+                n *= d
+            self.size = n
+
+        def ravel(self):
+            return Flat(self)
+
+        flatten = ravel
+
+        def reshape(self, *shape):
+            shape = tuple(shape[0]) if len(shape) == 1 and isinstance(shape[0], (tuple, list)) else tuple(shape)
+            if shape == (-1,):
+                return Flat(self)
+            return self if shape == self.shape else Tens(f"{self._name} reshaped to {shape}", shape)
+
+    class Flat(Sym):
+        def __init__(self, of):
+            super().__init__(f"flat({of._name})")
+            self.of, self.shape, self.size, self.ndim = of, (of.size,), of.size, 1
+
+        def reshape(self, *shape):
+            shape = tuple(shape[0]) if len(shape) == 1 and isinstance(shape[0], (tuple, list)) else tuple(shape)
+            return self.of.reshape(shape)
+
+        def ravel(self):
+            return self
+
+    class Hop(Sym):
+        def __init__(self, kind, node):
+            super().__init__(f"{kind}({node!r})")
+            self.kind, self.node = kind, node
+
+        def __call__(self, x):
+            return Tens(f"{self._name} applied to [{x._name}]", x.shape) if isinstance(x, Tens) else Sym(f"{self._name} applied to a flat vector")
+    cases = [("evolve_0site", "hop_expr0", [(1, 1), (3, 5), (1, 4)]), ("evolve_1site", "hop_expr1", [(2, 3, 4), (1, 2, 1), (1, 1)]), ("evolve_2site", "hop_expr2", [(2, 3, 3, 4), (1, 2, 2, 1)])]
+    for fname, hname, shapes in cases:
+        fi = src.func(TEVO, fname)
+        for shape in shapes:
+            local = Tens("local tensor", shape)
+            snode = Sym("snode", tensor=local, shape=shape)
+            ttns = Sym("ttns", merge_with_parent=lambda n_: local)
+            rec = {}
+
+            def hop_builder(kind):
+                def build(node, *a, **k):
+                    rec.setdefault("built", []).append((kind, node))
+                    h = Hop(kind, node)
+                    return (h, "extra") if kind == "hop_expr2" else h
+                return build
+
+            def expm(fn, scalar, vec, *a, **k):
+                size = getattr(vec, "size", None)
+                probe = Flat(Tens("probe", local.shape)) if size == local.size else Flat(Tens("probe", (size,)))
+                rec["calls"] = rec.get("calls", 0) + 1
+                rec["vec"], rec["scalar"], rec["image"] = vec, scalar, fn(probe)
+                return Sym("exp(scalar * H) vec", shape=(size,)), "j"
+            it = SymInterp(src, None, {"hop_expr0": hop_builder("hop_expr0"), "hop_expr1": hop_builder("hop_expr1"), "hop_expr2": hop_builder("hop_expr2"), "expm_krylov": expm})
+            args = ([local] if fname == "evolve_0site" else []) + [snode, ttns, Sym("ttno"), Sym("ttne"), c, t]
+            out = it.call_function(fi, args)
+            probs = []
+            if rec.get("calls") != 1:
+                probs.append(f"the exponential is applied {rec.get('calls', 0)} times; the step returns {out!r}")
+            else:
+                if rec.get("built") != [(hname, snode)]:
+                    probs.append(f"effective Hamiltonian built as {rec.get('built')}")
+                if not (isinstance(rec["vec"], Flat) and rec["vec"].of is local):
+                    probs.append(f"vector handed to the exponential: {rec['vec']!r}")
+                if sp.simplify(sp.sympify(rec["scalar"]) - c * t) != 0:
+                    probs.append(f"exponent scalar {rec['scalar']}")
+                img = rec["image"]
+                if not (isinstance(img, Flat) and img.of._name == f"{hname}(snode) applied to [probe]" and img.of.shape == local.shape):
+                    probs.append(f"matrix-vector product gives {img!r}")
+                if not (isinstance(out, tuple) and len(out) == 2 and repr(out[0]) == "exp(scalar * H) vec" and out[1] == "j"):
+                    probs.append(f"returns {out!r}")
+            chk.ob(rule, f"{fname}[local tensor of shape {shape}]", not probs, fi.where, probs[:2] or "exp(coeff * tau * H_eff) on the flattened local tensor", "one Krylov exponential of coeff * tau * H_eff on the local tensor",
+                   line=fi.node.lineno, detail="every local step of the projector splitting is an exponential of the effective Hamiltonian, also where the local tensor is a single number "
+                   "(a bond of dimension one carries the phase / weight exp(coeff tau <H>) that cancels the double counting of its neighbours): " + (probs[0] if probs else ""))
